@@ -1,6 +1,5 @@
+(* model: writer *)
 (* model side of harness bin `mlw` (see harness/src/mlw.rs for the formats) *)
-open Model
-open Conv
 
 let parse_ops s =
   List.map (fun t ->
